@@ -39,7 +39,7 @@ func init() {
 // one line per case. It runs in a process of its own: new maphash seed, new address space layout,
 // cold caches.
 func helperMain(args []string) {
-	runtime.GOMAXPROCS(2)
+	runtime.GOMAXPROCS(1)
 	in := bufio.NewReaderSize(os.Stdin, 1<<20)
 	out := bufio.NewWriterSize(os.Stdout, 1<<20)
 	dec := json.NewDecoder(in)
